@@ -32,6 +32,11 @@ class SkipCase(Exception):
     pass
 
 
+class StopSearch(BaseException):
+    """Raised when the phase's wall budget is used up: ends the Hypothesis search at once (BaseException subclasses
+    other than SystemExit/GeneratorExit are not treated as test failures by Hypothesis). Inconclusive-but-green."""
+
+
 class CaseTimeout(BaseException):
     """Raised by the SIGALRM watchdog (BaseException so library `except Exception` cannot swallow it)."""
 
@@ -216,8 +221,8 @@ class Ctx:
         @given(strategy)
         def test(spec):
             if ctx.out_of_time():
-                ctx.events["budget_wall_hit"] = 1
-                return
+                ctx.events["budget_wall_hit"] = ctx.events.get("budget_wall_hit", 0) + 1
+                raise StopSearch()
             try:
                 ctx.count()
                 case_fn(spec, ctx)
@@ -228,6 +233,8 @@ class Ctx:
 
         try:
             test()
+        except StopSearch:
+            pass
         except Violation as v:
             self._record_violation(v)
             raise
